@@ -47,6 +47,13 @@ CLAIMED["C27"] = dict(
     ref="DESIGN.md 4/C27",
 )
 
+CLAIMED["C28"] = dict(
+    technique="exception-escape (may-raise) analysis through the call graph with callable-parameter and functools.partial binding and try/except subtraction; must-flow over the per-column loop body; table agreement between parser tables, fixeddict declarations, set_source_defaults, the validator's zero-rejections and the decoder's quantisation-matrix layout (linear-form normalised)",
+    text="For any CSV text: the modelled exception sources (explicit raises, int()/next()/enum construction/dict.pop/csv.reader iteration, resolved callees) can only escape as InvalidCodecFeaturesError; every CodecFeatures entry is stored on all normal paths through declared keys with the parser its declaration demands; fields the validator rejects at zero cannot be parsed as zero. Does not model subscript errors on plain locals or ill-typed values.",
+    note="Trusted: the builtin may-raise summary table (vcheck/mayraise.py); vc2_data_tables enum list.",
+    ref="DESIGN.md 4/C28",
+)
+
 NOT_APPLICABLE = {
     "C12": "arithmetic over unbounded integers (quantisation error bounds, monotonicity of a rational formula): no structural clause; needs algebra/solver or execution",
     "C13": "partition/telescoping identities of floor arithmetic on runtime sizes; the functions are spec-pinned arithmetic with nothing to decide from code shape",
